@@ -311,7 +311,18 @@ def emit_dobj(o: J, ids: Ids) -> Tuple[str, str]:
             s += f'<DTC ID={quoteattr(oid + "." + d["name"])}>' + _tag("SHORT-NAME", d["name"]) + \
                 _tag("TROUBLE-CODE", d["code"]) + _tag("DISPLAY-TROUBLE-CODE", d.get("display")) + \
                 _tag("TEXT", d.get("text", d["name"])) + _tag("LEVEL", d.get("level")) + "</DTC>"
-        return "DTC-DOPS", s + "</DTCS></DTC-DOP>"
+        s += "</DTCS>"
+        if o.get("linked"):
+            s += "<LINKED-DTC-DOPS>"
+            for ln in o["linked"]:
+                s += "<LINKED-DTC-DOP>"
+                if ln.get("not_inherited"):
+                    s += "<NOT-INHERITED-DTC-SNREFS>" + "".join(
+                        f"<NOT-INHERITED-DTC-SNREF SHORT-NAME={quoteattr(n)}/>"
+                        for n in ln["not_inherited"]) + "</NOT-INHERITED-DTC-SNREFS>"
+                s += f'<DTC-DOP-REF ID-REF={quoteattr(dobj_id(ids, ln["dop"]))}/></LINKED-DTC-DOP>'
+            s += "</LINKED-DTC-DOPS>"
+        return "DTC-DOPS", s + "</DTC-DOP>"
     if t == "STRUCT":
         s = f"<STRUCTURE{head}>{nm}" + _tag("BYTE-SIZE", o.get("byte_size")) + \
             _params(o["params"], ids, oid) + "</STRUCTURE>"
